@@ -7,6 +7,10 @@
 //! comment bodies with multi-byte characters, stars, slashes, quotes, keywords, line breaks;
 //! whitespace runs with tabs, CR, CRLF, Unicode spaces; singly next to unusual tokens; and a
 //! sweep of every material x every dialect on two small texts.
+//! The *places* are varied as well (classes `…@new-gap`): further base texts are derived from each
+//! corpus text by putting a space / a newline where two code tokens touch (before and after commas,
+//! inside and before brackets, around dots, before terminators, between operators, at the edges of
+//! the text); those that parse fully are texts of the quantifier, and their new gaps are perturbed.
 //! Kernel correspondence (Layout/Model.v): `skip_start_index_forward_to_code`,
 //! `skip_stop_index_backward_to_code`, `StringParser`/`MultiStringParser` matching, block
 //! comment subdivision (UTF-8), the native `block_comment` matcher on `Cursor`.
@@ -344,7 +348,9 @@ fn check_one(linter: &Linter, it: &Item, base: &Parsed, p: usize, mode: &str, ch
         return;
     }
     buf.count("perturbed_parses", 1);
-    let cls = PERTURBATIONS[p];
+    // perturbations of a gap that the corpus text did not have (base text derived by `run_gapped`) are their own classes
+    let cls_owned = if it.name.starts_with("gapped[") { format!("{}@new-gap", PERTURBATIONS[p]) } else { PERTURBATIONS[p].to_string() };
+    let cls = cls_owned.as_str();
     // comments abutting a code token on one side: outside the claimed class (DESIGN 6.11), one key per side
     let key = match p {
         4 => "c11:comment-abuts-previous-code-token".to_string(),
@@ -391,6 +397,166 @@ fn rare_neighbour(ls: &[Leaf], i: usize) -> bool {
     let prev = ls[..i].iter().rev().find(|l| !l.raw.is_empty());
     let next = ls[i + 1..].iter().find(|l| !l.raw.is_empty());
     [prev, next].into_iter().flatten().any(|l| l.code && !common_kind(l.kind))
+}
+
+// ------------------------------------------------------------------ gaps the corpus does not have
+// The property quantifies over every fully parsable text and every whitespace run in it; the corpus
+// pins one spelling per statement, so most (grammar element, gap) pairs have *no* gap in any corpus
+// text (`f(a, b)`: nothing before the comma, nothing inside the brackets, nothing around the dot of
+// `t.a`), and a perturbation of existing whitespace never gets there.  From every fully parsable
+// corpus text further base texts are derived by putting one space (or one newline) at the junctions
+// of adjacent code tokens; a derived text that parses fully is a text of the property's quantifier
+// in its own right (its tree is its own reference, the corpus text's tree is not consulted), and the
+// property's perturbations are then applied to the *new* whitespace / newline tokens.
+pub const JUNCTION_CLASSES: [&str; 8] = ["before-comma", "after-comma", "inside-bracket", "before-bracket", "at-dot", "before-terminator", "other", "file-edge"];
+fn opener(k: SyntaxKind) -> bool {
+    matches!(k, SyntaxKind::StartBracket | SyntaxKind::StartSquareBracket | SyntaxKind::StartCurlyBracket | SyntaxKind::StartAngleBracket)
+}
+fn closer(k: SyntaxKind) -> bool {
+    matches!(k, SyntaxKind::EndBracket | SyntaxKind::EndSquareBracket | SyntaxKind::EndCurlyBracket | SyntaxKind::EndAngleBracket)
+}
+/// (index of the right-hand leaf, class) of every place where two code tokens touch, and the two
+/// edges of the text where it starts / ends with a code token (index `ls.len()`: behind the last leaf)
+fn junctions(ls: &[Leaf]) -> Vec<(usize, usize)> {
+    let vis: Vec<usize> = (0..ls.len()).filter(|i| !ls[*i].raw.is_empty()).collect();
+    let mut out = vec![];
+    if vis.first().is_some_and(|i| ls[*i].code) {
+        out.push((vis[0], 7));
+    }
+    for w in vis.windows(2) {
+        let (a, b) = (&ls[w[0]], &ls[w[1]]);
+        if !(a.code && b.code) {
+            continue;
+        }
+        let cls = if b.kind == SyntaxKind::Comma {
+            0
+        } else if a.kind == SyntaxKind::Comma {
+            1
+        } else if opener(a.kind) || closer(b.kind) {
+            2
+        } else if opener(b.kind) {
+            3
+        } else if a.kind == SyntaxKind::Dot || b.kind == SyntaxKind::Dot {
+            4
+        } else if b.kind == SyntaxKind::StatementTerminator {
+            5
+        } else {
+            6
+        };
+        out.push((w[1], cls));
+    }
+    if vis.last().is_some_and(|i| ls[*i].code) {
+        out.push((ls.len(), 7));
+    }
+    out
+}
+/// the text with `gap` put in front of the leaves `at` (ascending); byte offsets of the inserted gaps
+fn insert_gaps(ls: &[Leaf], at: &[usize], gap: &str) -> (String, Vec<usize>) {
+    let mut s = String::new();
+    let mut offs = vec![];
+    let mut k = 0;
+    for (i, l) in ls.iter().enumerate() {
+        if k < at.len() && at[k] == i {
+            k += 1;
+            offs.push(s.len());
+            s.push_str(gap);
+        }
+        s.push_str(&l.raw);
+    }
+    if k < at.len() && at[k] == ls.len() {
+        offs.push(s.len());
+        s.push_str(gap);
+    }
+    (s, offs)
+}
+
+/// one derived base text: parse it, find the new gap tokens, perturb them
+fn run_gapped_base(linter: &Linter, origin: &Item, origin_shape: &str, ls: &[Leaf], at: &[usize], gap: &str, label: &str, rng: &mut Rng, thorough: bool, buf: &mut Buf) -> bool {
+    let (text, offs) = insert_gaps(ls, at, gap);
+    buf.count("gapped_candidates", 1);
+    let base = match parse(linter, &text) {
+        Ok(Some(p)) => p,
+        _ => {
+            // not a text of the quantifier (`a . b`, `> =`, `: :` …)
+            buf.count("gapped_candidates_not_fully_parsable", 1);
+            return false;
+        }
+    };
+    buf.count("gapped_bases", 1);
+    if base.shape != origin_shape {
+        // not a failure: putting a gap where there was none is not one of the property's perturbations
+        buf.count("gapped_bases_whose_tree_differs_from_the_corpus_text", 1);
+    }
+    let it = Item { dialect: origin.dialect.clone(), name: format!("gapped[{}]:{}", label, origin.name), text };
+    let ls2 = leaves(&base.tree);
+    let want = if gap == "\n" { SyntaxKind::Newline } else { SyntaxKind::Whitespace };
+    let new_sites: Vec<usize> = (0..ls2.len()).filter(|i| ls2[*i].kind == want && ls2[*i].raw == gap && offs.binary_search(&ls2[*i].start).is_ok()).collect();
+    buf.count("gapped_sites", new_sites.len());
+    if new_sites.is_empty() {
+        return true;
+    }
+    let ps: &[usize] = if gap == "\n" { &[6, 7, 14] } else { &[0, 1, 2, 3, 12, 13] };
+    for &p in ps {
+        let allowed = sites(&ls2, p);
+        let st: Vec<usize> = new_sites.iter().copied().filter(|i| allowed.binary_search(i).is_ok()).collect();
+        if st.is_empty() {
+            continue;
+        }
+        check_one(linter, &it, &base, p, "new-gaps-global", &st, &ls2, Mat::Hash(rng.next()), buf);
+        if st.len() > 1 {
+            let n_single = if thorough { 4 } else { 1 } + if p >= 12 { 1 } else { 0 };
+            for _ in 0..n_single.min(st.len()) {
+                let one = [st[rng.below(st.len())]];
+                check_one(linter, &it, &base, p, "new-gap-single", &one, &ls2, Mat::Hash(rng.next()), buf);
+            }
+            if thorough {
+                let sub: Vec<usize> = st.iter().copied().filter(|_| rng.chance(1, 2)).collect();
+                if !sub.is_empty() && sub.len() < st.len() {
+                    check_one(linter, &it, &base, p, "new-gaps-subset", &sub, &ls2, Mat::Hash(rng.next()), buf);
+                }
+            }
+        }
+    }
+    true
+}
+
+fn run_gapped(linter: &Linter, it: &Item, base: &Parsed, ls: &[Leaf], rng: &mut Rng, thorough: bool, buf: &mut Buf) {
+    let js = junctions(ls);
+    buf.count("junctions", js.len());
+    if js.is_empty() {
+        return;
+    }
+    for (gap, gname) in [(" ", "space"), ("\n", "newline")] {
+        // everywhere at once; where that is not a parsable text, class by class; where a class is not, a few junctions singly
+        let mut covered = std::collections::HashSet::new();
+        let all: Vec<usize> = js.iter().map(|j| j.0).collect();
+        let all_ok = run_gapped_base(linter, it, &base.shape, ls, &all, gap, &format!("{}:all", gname), rng, thorough, buf);
+        if all_ok {
+            covered.extend(all.iter().copied());
+        }
+        if !all_ok || thorough {
+            for (c, cname) in JUNCTION_CLASSES.iter().enumerate() {
+                let at: Vec<usize> = js.iter().filter(|j| j.1 == c).map(|j| j.0).collect();
+                if at.is_empty() || at.len() == all.len() {
+                    continue;
+                }
+                if run_gapped_base(linter, it, &base.shape, ls, &at, gap, &format!("{}:{}", gname, cname), rng, thorough, buf) {
+                    covered.extend(at.iter().copied());
+                    continue;
+                }
+                if at.len() == 1 {
+                    continue;
+                }
+                for _ in 0..(if thorough { 6 } else { 2 }).min(at.len()) {
+                    let one = [at[rng.below(at.len())]];
+                    if run_gapped_base(linter, it, &base.shape, ls, &one, gap, &format!("{}:{}:one", gname, cname), rng, thorough, buf) {
+                        covered.insert(one[0]);
+                    }
+                }
+            }
+        }
+        buf.count(if gap == " " { "junctions_given_a_space_in_a_parsable_base" } else { "junctions_given_a_newline_in_a_parsable_base" }, covered.len());
+    }
 }
 
 fn run_file(ls_cache: &mut std::collections::HashMap<String, Linter>, it: &(Item, u64, bool), buf: &mut Buf) {
@@ -458,6 +624,8 @@ fn run_file(ls_cache: &mut std::collections::HashMap<String, Linter>, it: &(Item
             }
         }
     }
+    // the gaps this text does not have
+    run_gapped(linter, it, &base, &ls, &mut rng, thorough, buf);
 }
 
 // ------------------------------------------------------------------ kernel correspondence
